@@ -32,7 +32,10 @@ def run(ctx):
         model_ok, _ = ctx.coq_build(["lib/Refs.vo"])
     if model_ok:
         R.correspond(ctx, "C08", results)
-    if not ok and len(ctx.failures) == before:
+    # a failing input that is a listed known finding does not explain a broken proof
+    known = common.load_known()
+    fresh = [f for f in ctx.failures[before:] if not (f["has_input"] and known.get(("C08", f["sig"]), {}).get("status") == "known")]
+    if not ok and not [f for f in fresh if f["has_input"]]:
         ctx.fail("proof-broken", "the Coq development for C08 no longer builds against the regenerated gen/RefsGen.v "
                  "(theorem closure props/C08.vo):\n" + log[-2500:], replay=dict(log=log[-6000:]), has_input=False)
     elif not ok:
